@@ -19,7 +19,7 @@ META = {
     "technique": "TLA+ abstract machine explored by TLC; behaviours replayed into the real dynamic database (spec -> impl)",
 }
 HELPERS = ":- dynamic(logged/1).\nlog(T) :- assertz(logged(T)).\n"
-RENAME = [("p", 1)]
+RENAME = [("p", 1), ("m", 2)]
 
 
 def run(tier):
@@ -49,11 +49,15 @@ def run(tier):
             pr = Prog(v, "%d" % j, RENAME)
             progs[(bi, j)] = pr
             pn = pr.mapping[("p", 1)]
+            mn = pr.mapping[("m", 2)]
             steps.append({"consult": pr.text})
             steps.append({"q": "retractall(logged(_)).", "max": 2})
             steps.append({"q": pr.qtext, "max": 3, "tmo_ms": 3000})
             steps.append({"q": "findall(T, logged(T), L).", "max": 2})
-            steps.append({"q": "findall((H:-B), (H = %s(_), clause(H,B)), L)." % terms.quote_atom(pn), "max": 2})
+            if v["sc"] and v["sc"][0] > 100:
+                steps.append({"q": "findall((H:-B), (H = %s(_,_), clause(H,B)), L)." % terms.quote_atom(mn), "max": 2})
+            else:
+                steps.append({"q": "findall((H:-B), (H = %s(_), clause(H,B)), L)." % terms.quote_atom(pn), "max": 2})
         jobs.append({"id": bi, "steps": steps, "timeout": 120, "fresh": True})
     results = run_jobs(jobs, workers=8, job_timeout=120)
 
